@@ -1,0 +1,35 @@
+//go:build verif
+
+package calcium
+
+import (
+	"github.com/projecteru2/core/resource"
+	"github.com/projecteru2/core/store"
+	"github.com/projecteru2/core/wal"
+)
+
+// Verification hooks (build tag `verif` only): accessors for the unexported
+// collaborators of Calcium so that a harness can wrap them with recording /
+// fault-injecting decorators. Nothing here is compiled into normal builds.
+
+// VerifStore returns the metadata store used by c.
+func (c *Calcium) VerifStore() store.Store { return c.store }
+
+// VerifSetStore replaces the metadata store used by c.
+func (c *Calcium) VerifSetStore(s store.Store) { c.store = s }
+
+// VerifRmgr returns the resource manager used by c.
+func (c *Calcium) VerifRmgr() resource.Manager { return c.rmgr }
+
+// VerifSetRmgr replaces the resource manager used by c.
+func (c *Calcium) VerifSetRmgr(m resource.Manager) { c.rmgr = m }
+
+// VerifWAL returns the write-ahead log used by c.
+func (c *Calcium) VerifWAL() wal.WAL { return c.wal }
+
+// VerifSetWAL replaces the write-ahead log used by c.
+func (c *Calcium) VerifSetWAL(w wal.WAL) { c.wal = w }
+
+// VerifPoolRunning reports the number of goroutines of c's worker pool that are
+// currently running a task (0 = every background task has finished).
+func (c *Calcium) VerifPoolRunning() int { return c.pool.Running() }
